@@ -252,8 +252,13 @@ class BuildAssembly(Assembly):
                     if last_added_i is not None and last_added_i != i - 1:
                         # Last added row was not the previous row in the
                         # scaffold
+                        between = scffld.rows[last_added_i + 1 : i]
                         prev_row = scffld.rows[i - 1]
-                        if isinstance(prev_row, Gap):
+                        if all(isinstance(row, Gap) for row in between):
+                            # Only gaps separate the two contigs: keep them all
+                            for row in between:
+                                new_scffld.add_row(row)
+                        elif isinstance(prev_row, Gap):
                             new_scffld.add_row(prev_row)
                         else:
                             new_scffld.add_row(self.default_gap)
@@ -273,27 +278,31 @@ class BuildAssembly(Assembly):
     @staticmethod
     def input_predecessor(scffld: Scaffold, i: int):
         """
-        Returns the Fragment before row `i` of the Scaffold and the Gap between
-        them (or None if they abut), or None if row `i` is the first Fragment.
+        Returns the Fragment before row `i` of the Scaffold and the list of
+        Gap rows between them (empty if they abut), or None if row `i` is
+        the first Fragment.
         """
-        gap = None
+        gaps = []
         for row in scffld.rows[i - 1 :: -1] if i else ():
             if isinstance(row, Gap):
-                gap = gap or row
+                gaps.insert(0, row)
             else:
-                return row, gap
+                return row, gaps
         return None
 
-    def gap_before_leftover(self, build_scffld: Scaffold, scffld: Scaffold):
+    def gaps_before_leftover(self, build_scffld: Scaffold, scffld: Scaffold):
         """
-        The gap to put between the rows fused so far and a left-over Scaffold
-        from the input assembly: what the input had there (a Gap, or None
-        where the contigs abut) if the last row is still the end of the
-        left-over's neighbour in the input, otherwise the default gap.
+        The gap rows to put between the rows fused so far and a left-over
+        Scaffold from the input assembly: what the input had there (its Gap
+        rows, or nothing where the contigs abut) if the last row is still
+        the end of the left-over's neighbour in the input, otherwise the
+        default gap.
         """
+        if not build_scffld.rows:
+            return []
         pred = getattr(scffld, "input_predecessor", None)
-        if pred and build_scffld.rows:
-            prev, gap = pred
+        if pred:
+            prev, gaps = pred
             last = build_scffld.rows[-1]
             if (
                 isinstance(last, Fragment)
@@ -302,8 +311,8 @@ class BuildAssembly(Assembly):
                 and (last.start if prev.strand == -1 else last.end)
                 == (prev.start if prev.strand == -1 else prev.end)
             ):
-                return gap
-        return self.default_gap
+                return gaps
+        return [self.default_gap] if self.default_gap else []
 
     def assemblies_with_scaffolds_fused(self) -> list[Assembly]:
         chr_namer = ChrNamer(chr_prefix=self.autosome_prefix)
@@ -363,9 +372,9 @@ class BuildAssembly(Assembly):
             if isinstance(scffld, OverlapResult):
                 build_scffld.append_scaffold(scffld.to_scaffold(), gap)
             else:
-                build_scffld.append_scaffold(
-                    scffld, self.gap_before_leftover(build_scffld, scffld)
-                )
+                for gap in self.gaps_before_leftover(build_scffld, scffld):
+                    build_scffld.add_row(gap)
+                build_scffld.append_scaffold(scffld)
 
         for scffld in hap_name_scaffold.values():
             yield scffld
